@@ -315,6 +315,19 @@ fn handle_xgroup_create(storage: &Arc<StorageEngine>, db: usize, parts: &[RespFr
         _ => false,
     };
     
+    // Parse the start ID before anything is looked up or created: a refused command changes nothing
+    // ("$" needs the stream, but cannot fail)
+    let explicit_start = if id_str == "$" {
+        None
+    } else if id_str == "0" || id_str == "0-0" {
+        Some(StreamId::new(0, 0))
+    } else {
+        match StreamId::from_string(&id_str) {
+            Some(id) => Some(id),
+            None => return Ok(RespFrame::error("ERR Invalid stream ID specified as stream command argument")),
+        }
+    };
+    
     // Get or create the stream
     let stream = match storage.get(db, &key)? {
         GetResult::Found(Value::Stream(stream)) => stream,
@@ -333,19 +346,12 @@ fn handle_xgroup_create(storage: &Arc<StorageEngine>, db: usize, parts: &[RespFr
         GetResult::WrongType => return Ok(RespFrame::error("WRONGTYPE Operation against a key holding the wrong kind of value")),
     };
     
-    // Parse start ID
-    let start_id = if id_str == "$" {
-        // Use the last entry's ID or 0-0 if empty
-        stream.last_entry()
+    // "$": the last entry's ID, or 0-0 if the stream is empty
+    let start_id = match explicit_start {
+        Some(id) => id,
+        None => stream.last_entry()
             .map(|e| e.id)
-            .unwrap_or(StreamId::new(0, 0))
-    } else if id_str == "0" || id_str == "0-0" {
-        StreamId::new(0, 0)
-    } else {
-        match StreamId::from_string(&id_str) {
-            Some(id) => id,
-            None => return Ok(RespFrame::error("ERR Invalid stream ID specified as stream command argument")),
-        }
+            .unwrap_or(StreamId::new(0, 0)),
     };
     
     // Create the consumer group
